@@ -28,6 +28,11 @@ let known_witnesses = [
   "f = (u : int) => (a = 1; (x = y + a; y = u + 1; x)); f 0";
   "k = (u : int) => (p = (x = y + 1; y = u + 1; x); p); k 1";
   "1 + _";                                                            (* D14 *)
+  (* a computed definition that reaches ITSELF, directly, through an earlier function, inside a function body: rejected *)
+  "x = x + 1; x";
+  "f = (u : int) => x + u; x = f 1; x";
+  "g = (n : int) => (y = y * n; y); g 3";
+  "a = 1; b = if b < 0 then a else 2; b";
 ]
 
 (* the stuck variable on the evaluation path, resolved against the group definitions crossed on the way:
@@ -61,6 +66,11 @@ let gen ~(tier : string) ~(seed : int) ~(emit : Sexp.t -> unit) : unit =
     (* a misordered variant: accepted only if the later definition is a value (D7), otherwise it must be rejected *)
     if i mod 3 = 0 then begin
       let q = Gen_prog.misorder r p in
+      if q <> p then emit (case_pipe (Gen_prog.to_string q))
+    end;
+    (* a computed definition that needs its own value: must be rejected *)
+    if i mod 5 = 0 then begin
+      let q = Gen_prog.selfref r p in
       if q <> p then emit (case_pipe (Gen_prog.to_string q))
     end
   done
